@@ -368,4 +368,19 @@ Section ProofsE.
     - (* CIns *) rewrite (jac_CIns wm cs rc). rewrite (merge_agree cs rc r Ha). reflexivity.
     - (* CGamma *) rewrite (jac_CIns wm cs rc). rewrite (merge_agree cs rc r Ha). reflexivity.
   Qed.
+
+  Lemma ham_free_offset cs rc h : ham_free A P h = true -> offset cs rc h = a0.
+  Proof.
+    induction h; intros Hf; rewrite offset_eq;
+      match goal with |- context [anyc cs ?l] => destruct (anyc cs l) end; simpl negb; cbv iota; try reflexivity;
+      match goal with |- context [allc cs ?l] => destruct (allc cs l) end; try reflexivity; try discriminate.
+    simpl in Hf. rewrite (IHh Hf). ring.
+  Qed.
+
+  (* EnergyAdapter(position, op, constants): value, gradient = adjoint Jacobian applied to 1 *)
+  Lemma simplifyC_value_free cs rc r h : agree cs rc r -> ham_free A P h = true ->
+    evalC (simplifyC cs rc h) r = evalC h r.
+  Proof.
+    intros Ha Hf. rewrite <- (simplifyC_value cs rc r h Ha). rewrite (ham_free_offset cs rc h Hf). ring.
+  Qed.
 End ProofsE.
